@@ -12,6 +12,7 @@ transactions must be reported.
 import hashlib
 
 from dsim.kernel import make_bench, cached_bench, Violations
+from models.usb2_wire import gen_idle_data
 from models import usb2
 from models.usb2 import UTMIHost, token_packet, data_packet, sof_packet, handshake_packet, apply_fault, parse_token, parse_data
 from engines.usb2_device import device_bench, IDLE_INIT
@@ -157,6 +158,7 @@ def gen(rng, tier, index):
             ops.append({"op": "idle", "n": rng.randint(1, 60)})
     # always finish with a clean valid SETUP: "never causes a later valid SETUP to be missed"
     ops.append({"op": "setup", "addr": 0, "ep": 0, "data": _setup_bytes(rng).hex(), "pid": "DATA0", "gap": 2})
+    cfg["idle_data"] = gen_idle_data(rng)
     return {"engine": ENGINE, "config": cfg, "ops": ops}
 
 
@@ -313,7 +315,7 @@ def run(scn):
             yield from h.idle(cfg["interpacket"])
         yield from h.idle(10)
 
-    host = UTMIHost(script, byte_period=cfg["byte_period"], pre=cfg["pre"], post=cfg["post"], gap_pattern=cfg["gaps"],
+    host = UTMIHost(script, idle_data=cfg.get("idle_data"), byte_period=cfg["byte_period"], pre=cfg["pre"], post=cfg["post"], gap_pattern=cfg["gaps"],
                     txready=(cfg["txready"] if cfg["txready"] == "always" else tuple(cfg["txready"])))
     if not is_dev and dut == "decoder_hs":
         probes["high_speed_runs"] += 1
